@@ -29,7 +29,7 @@ for d in sorted(glob.glob('/verif/seeded/C??-*m?/')):
         "change": title,
         "files_changed": files_changed,
         "needs_to_manifest": needs or "see notes.md",
-        "written_by": "independent sub-agent given only the property text and a scratch worktree of /repo (nothing from /verif)",
+        "written_by": "independent sub-agent given only the property text and a scratch worktree of /repo (nothing from /verif)" + (", plus the one-line titles of the earlier changes for the same property so that it would pick other sites" if re.search(r'-r[34]m', name) else "") + ("; this round asked for two cooperating sites, state carried between calls, or cross-layer interplay" if '-r4m' in name else ""),
         "confirmed": {
             "how": "tools/confirm_seed.sh in the scratch worktree: git apply --check; demo passes on the clean tree; demo fails (assertion/panic, no compile error) with the patch; `cargo test --workspace --offline` passes with the patch (1112 + 11 + 111 tests)",
             "result": "CONFIRMED"
